@@ -31,6 +31,7 @@ type FuncSpec struct {
 	MaxEnum map[string]int            `json:"maxenum"`
 	MapAll  bool                      `json:"maporder_all"`
 	NoNative bool                     `json:"no_native"`
+	Race    []string                  `json:"race"` // package dirs whose code is watched by the data-race oracle (race.go)
 	Expect  string                    `json:"expect"` // "" | "selftest-fail": litmus harness whose assertion must fail
 	About   string                    `json:"about"`
 }
@@ -320,7 +321,7 @@ func cmdRun(args []string) int {
 				fmt.Fprintf(os.Stderr, "harness %s not found in %s\n", fsp.Name, h.Pkg)
 				return 2
 			}
-			cfg := Config{StepLimit: 3000000, SymUnwind: 64, MaxEnum: 300, Preempt: 2, Solver: *solver, TimeoutMs: 20000, Debug: *debug, Trace: *trace, MaxPaths: *maxPaths, MapOrderAll: fsp.MapAll, Sites: *sites}
+			cfg := Config{StepLimit: 3000000, SymUnwind: 64, MaxEnum: 300, Preempt: 2, Solver: *solver, TimeoutMs: 20000, Debug: *debug, Trace: *trace, MaxPaths: *maxPaths, MapOrderAll: fsp.MapAll, Sites: *sites, Race: fsp.Race}
 			if *tier == "thorough" {
 				cfg.Solver2 = "cvc5"
 				cfg.TimeoutMs = 120000
